@@ -241,7 +241,7 @@ def main():
         vers = [v for v in tls_ref.valid_versions(code, iana_ref.denote(table[code])) if v != "TLS13"]
         conns.append(pool.tls_conn(rng, table, hist, idx=k + 1, code=code, ver=rng.choice(vers), nrec=4, reclen=rng.choice([100, 300]), schedule="records"))
         case = pool.build(rng, conns, hist)
-        args = [[], ["-a"], []][i % 3]
+        args = [[], ["-a"], [], ["-a"]][i % 4]      # period 4 against the period 3 of the zero-length-CID connection above
         st0, out0 = impl.run(case.capture, case.keylog, args)
         if st0 != "ok":
             fails.append({"what": "healthy capture: run ended with %s" % st0, "capture": case.capture.hex(), "keylog": case.keylog, "args": args})
